@@ -67,7 +67,7 @@ func openWatched(path string, mode string) (*updog.Index, string) {
 	select {
 	case r := <-ch:
 		return r.ix, r.oc
-	case <-time.After(8 * time.Second):
+	case <-time.After(25 * time.Second):
 		return nil, "HANG"
 	}
 }
